@@ -52,6 +52,11 @@ def faults(d, rng):
         yield f"state {S[pos].name} has no update expression", all_ep, lambda dd, pos=pos: dd.state_model.pop(S[pos])
     yield "update expression for an undeclared state", all_ep, lambda dd: dd.state_model.__setitem__(sympy.Symbol("ghost_state"), sympy.Integer(1))
     yield f"update expression for an undeclared state instead of {S[-1].name} (same size)", all_ep, lambda dd: (dd.state_model.pop(S[-1]), dd.state_model.__setitem__(sympy.Symbol("ghost_state"), sympy.Integer(1)))
+    if U:
+        yield f"surplus update expression keyed by the declared control {U[0].name}", all_ep, lambda dd: dd.state_model.__setitem__(U[0], U[0] + 1)
+        yield f"update expression for control {U[-1].name} instead of state {S[0].name} (same size)", all_ep, lambda dd: (dd.state_model.pop(S[0]), dd.state_model.__setitem__(U[-1], U[-1] * 2))
+    if C:
+        yield f"surplus update expression keyed by the declared calibration symbol {C[0].name}", all_ep, lambda dd: dd.state_model.__setitem__(C[0], C[0] + 1)
     if C:
         for pos in sorted({0, len(C) - 1}):
             yield f"calibration value for {C[pos].name} missing", after_ui, lambda dd, pos=pos: dd.calibration_map.pop(C[pos])
